@@ -186,14 +186,15 @@ def _master_subs(tier):
     # the hourly Master.check_reboot ran; afterwards a leased instance is
     # scheduled: it must not land on a server whose reboot has been requested
     for delta in (1800, 5400, -10):
-        for recs in ([[], []], [[1], []]):
+        for recs in ([], [[1]], [[], []]):
             spec = {'level': 'master_reboot', 'nservers': 2,
                     'regime_dems': [3, 3, 3, 3], 'valid_until_delta': delta,
                     'servers': [{'memory': 8}, {'memory': 8}],
                     'apps': [{'recorded': r, 'memory': 3} for r in recs]}
             subs.append((_name('master-reboot_requested',
                                'in%d' % delta if delta > 0 else 'expired',
-                               ''.join(str(len(r)) for r in recs)), spec))
+                               ''.join(str(len(r)) for r in recs) or 'idle'),
+                         spec))
     return subs
 
 
